@@ -3,7 +3,9 @@
 read side : the AmExpr programs of C01 (same TLC enumeration / simulation) are evaluated by the testbench tree walker
             `ctx.get(expr)`; the value must equal the table TLC computed (which C01 binds to the compiled circuit).
 write side: AmLhs (assignment targets) — see harness/lhs_replay.py: TLC enumerates (target form, state, written value)
-            with the expected post-state; `ctx.set(target, v)` and the equivalent circuit assignment must both produce it."""
+            with the expected post-state; `ctx.set(target, v)` and the equivalent circuit assignment must both produce it.
+castable  : harness/castable_replay.py: (integer, shape) cases of AmShapeCases written raw and read back through a
+            user-defined ShapeCastable and a shaped Enum (from_bits / const round trip, signed shapes included)."""
 from . import c01
 
 LEVEL = "model_checking"
@@ -17,6 +19,8 @@ def run(ctx):
         lhs_replay = None
     if lhs_replay is not None:
         lhs_replay.run_stage(ctx, "C05", sides=("tbset",))
+    from .. import castable_replay
+    castable_replay.run_stage(ctx)
     ctx.assume("read side shares C01's generators; a testbench mismatch is reported here, a circuit mismatch by C01")
 
 
